@@ -87,6 +87,39 @@ func cgStructs(t types.Type, addr bool, pkg *types.Package, seen map[[2]any]bool
 	}
 }
 
+// cgContainerKind names the kind of container a package-level variable is: something that can be
+// added to at run time and so can serve as a cache, registry or pool that outlives a build.
+func cgContainerKind(t types.Type) string {
+	if n, ok := t.(*types.Named); ok && n.Obj().Pkg() != nil && n.Obj().Pkg().Path() == "sync" {
+		return "sync." + n.Obj().Name()
+	}
+	if p, ok := t.Underlying().(*types.Pointer); ok {
+		if k := cgContainerKind(p.Elem()); strings.HasPrefix(k, "sync.") {
+			return "*" + k
+		}
+		return ""
+	}
+	switch u := t.Underlying().(type) {
+	case *types.Map:
+		return "map"
+	case *types.Slice:
+		return "slice"
+	case *types.Chan:
+		return "chan"
+	case *types.Array:
+		if k := cgContainerKind(u.Elem()); k != "" {
+			return "array of " + k
+		}
+	case *types.Struct:
+		for i := 0; i < u.NumFields(); i++ {
+			if k := cgContainerKind(u.Field(i).Type()); k != "" {
+				return "struct with " + k
+			}
+		}
+	}
+	return ""
+}
+
 func genCompilerGlobals(repo string) (string, error) {
 	pkg, err := c30Load(repo)
 	if err != nil {
@@ -97,6 +130,7 @@ func genCompilerGlobals(repo string) (string, error) {
 		name, file, typ string
 		refs            bool
 		structs         []string
+		container       string
 	}
 	var vars []gvar
 	isGlobal := map[types.Object]bool{}
@@ -121,7 +155,7 @@ func genCompilerGlobals(repo string) (string, error) {
 						rs = append(rs, n)
 					}
 					sort.Strings(rs)
-					vars = append(vars, gvar{id.Name, file, types.TypeString(obj.Type(), qual), cgReaches(obj.Type(), map[types.Type]bool{}), rs})
+					vars = append(vars, gvar{id.Name, file, types.TypeString(obj.Type(), qual), cgReaches(obj.Type(), map[types.Type]bool{}), rs, cgContainerKind(obj.Type())})
 				}
 			}
 		}
@@ -272,6 +306,35 @@ func genCompilerGlobals(repo string) (string, error) {
 		}
 		fmt.Fprintf(&b, "  %q%s\n", w, sep)
 	}
+	// containers and who writes them
+	writersOf := map[string][]string{}
+	writtenSet := map[string]bool{}
+	for _, w := range writes {
+		f := strings.SplitN(w, " ", 2)
+		writersOf[f[0]] = append(writersOf[f[0]], f[1])
+		writtenSet[f[0]] = true
+	}
+	b.WriteString("]\n\n/-- the package-level variables that are containers (map, slice, chan, sync.Map, sync.Pool, or an\narray / struct holding one): what a cache, registry or pool that outlives a build would be; `writers`:\nthe direct writes to it (`<kind of write> <file>: <function>`) outside initialisers and init functions -/\nstructure Container where\n  name : String\n  kind : String\n  writers : List String\n  deriving DecidableEq, Repr\n\ndef containers : List Container := [\n")
+	var cl []string
+	for _, v := range vars {
+		if v.container == "" {
+			continue
+		}
+		var ws []string
+		for _, w := range writersOf[v.name] {
+			ws = append(ws, fmt.Sprintf("%q", w))
+		}
+		cl = append(cl, fmt.Sprintf("  { name := %q, kind := %q, writers := [%s] }", v.name, v.container, strings.Join(ws, ", ")))
+	}
+	b.WriteString(strings.Join(cl, ",\n"))
+	b.WriteString("\n]\n\n/-- the package-level variables (of any type) some function writes directly -/\ndef writtenVars : List String := [")
+	var wv []string
+	for _, v := range vars {
+		if writtenSet[v.name] {
+			wv = append(wv, fmt.Sprintf("%q", v.name))
+		}
+	}
+	b.WriteString(strings.Join(wv, ", "))
 	b.WriteString("]\n\n/-- for every package-level variable that reaches one: the struct types of the package reachable from\nits type behind a pointer or in a slice (through pointers, maps, slices, arrays and fields) whose fields\nsome function assigns -/\ndef pointerReach : List (String × List String) := [\n")
 	usedStructs := map[string]bool{}
 	var lines []string
